@@ -10,6 +10,7 @@ import (
 	"go/token"
 	"go/types"
 	"math"
+	"math/big"
 	"strconv"
 	"strings"
 )
@@ -17,6 +18,40 @@ import (
 type Sym struct {
 	K types.BasicKind
 	E string // SMT-LIB expression (short, or the name of a define-fun)
+	// Finite: a float known to be neither NaN nor infinite (result of an int->float conversion);
+	// lets math.IsNaN/IsInf answer without an expensive to_fp query.
+	Finite bool
+	// IntE: in real mode, the Int-sorted term this float equals (set for integral values), so that
+	// arithmetic on integral floats stays in the integer theory and matches integer arithmetic
+	// syntactically instead of through to_int/to_real reasoning.
+	IntE string
+}
+
+// integralOf returns the Int term of an integral real-mode float operand.
+func integralOf(v value) (string, bool) {
+	switch x := v.(type) {
+	case *Sym:
+		if x.IntE != "" {
+			return x.IntE, true
+		}
+	case float64:
+		if x == math.Trunc(x) && math.Abs(x) < 1<<53 {
+			return intLit(int64(x)), true
+		}
+	}
+	return "", false
+}
+
+func realOfInt(k types.BasicKind, ie string) *Sym {
+	if len(ie) > 160 && eng != nil {
+		ie = eng.define("Int", ie)
+	}
+	return &Sym{K: k, E: "(to_real " + ie + ")", IntE: ie, Finite: true}
+}
+
+// truncDivInt is Go's truncated integer division on Int terms.
+func truncDivInt(a, b string) string {
+	return fmt.Sprintf("(ite (= (>= %s 0) (>= %s 0)) (div (abs %s) (abs %s)) (- (div (abs %s) (abs %s))))", a, b, a, b, a, b)
 }
 
 func (s *Sym) String() string { return "sym<" + s.E + ">" }
@@ -153,10 +188,21 @@ func lit(v value) string {
 		return "false"
 	case float64:
 		if RealMode {
-			if x != math.Trunc(x) || math.Abs(x) > 1e15 {
-				panic(inconclusive{fmt.Sprintf("real mode: non-integral float constant %v", x)})
+			if math.IsNaN(x) || math.IsInf(x, 0) {
+				panic(inconclusive{fmt.Sprintf("real mode: non-finite float constant %v", x)})
 			}
-			return realLit(int64(x))
+			r := new(big.Rat).SetFloat64(x)
+			num, den := r.Num(), r.Denom()
+			ns := num.String()
+			if num.Sign() < 0 {
+				ns = "(- " + new(big.Int).Neg(num).String() + ".0)"
+			} else {
+				ns += ".0"
+			}
+			if den.IsInt64() && den.Int64() == 1 {
+				return ns
+			}
+			return "(/ " + ns + " " + den.String() + ".0)"
 		}
 		return fmt.Sprintf("((_ to_fp 11 53) %s)", bvLit(64, math.Float64bits(x)))
 	case float32:
@@ -283,7 +329,7 @@ func symBinop(op token.Token, t types.Type, x, y value) value {
 			return arith("(* " + a + " " + b + ")")
 		case token.QUO, token.REM:
 			eng.divCheck(symBool("(= " + b + " 0)"))
-			q := fmt.Sprintf("(ite (= (>= %s 0) (>= %s 0)) (div (abs %s) (abs %s)) (- (div (abs %s) (abs %s))))", a, b, a, b, a, b)
+			q := truncDivInt(a, b)
 			if op == token.QUO {
 				return arith(q)
 			}
@@ -296,11 +342,11 @@ func symBinop(op token.Token, t types.Type, x, y value) value {
 		case token.LSS:
 			return symBool("(< " + a + " " + b + ")")
 		case token.LEQ:
-			return symBool("(<= " + a + " " + b + ")")
+			return symBool("(not (< " + b + " " + a + "))")
 		case token.GTR:
-			return symBool("(> " + a + " " + b + ")")
+			return symBool("(< " + b + " " + a + ")")
 		case token.GEQ:
-			return symBool("(>= " + a + " " + b + ")")
+			return symBool("(not (< " + a + " " + b + "))")
 		}
 		panic(inconclusive{fmt.Sprintf("int mode: unsupported operator %s", op)})
 	case kindIsInt(k):
@@ -311,6 +357,12 @@ func symBinop(op token.Token, t types.Type, x, y value) value {
 				return symBool("(" + fs + " " + a + " " + b + ")")
 			}
 			return symBool("(" + fu + " " + a + " " + b + ")")
+		}
+		rcmp := func(fs, fu string) value { // operands swapped: a > b is b < a
+			if sg {
+				return symBool("(" + fs + " " + b + " " + a + ")")
+			}
+			return symBool("(" + fu + " " + b + " " + a + ")")
 		}
 		switch op {
 		case token.ADD:
@@ -346,14 +398,38 @@ func symBinop(op token.Token, t types.Type, x, y value) value {
 		case token.LSS:
 			return cmp("bvslt", "bvult")
 		case token.LEQ:
-			return cmp("bvsle", "bvule")
+			return notV(rcmp("bvslt", "bvult"))
 		case token.GTR:
-			return cmp("bvsgt", "bvugt")
+			return rcmp("bvslt", "bvult")
 		case token.GEQ:
-			return cmp("bvsge", "bvuge")
+			return notV(cmp("bvslt", "bvult"))
 		}
 	case kindIsFloat(k):
 		if RealMode && k == types.Float64 {
+			if ia, ok := integralOf(x); ok {
+				if ib, ok := integralOf(y); ok {
+					switch op {
+					case token.ADD:
+						return realOfInt(k, "(+ "+ia+" "+ib+")")
+					case token.SUB:
+						return realOfInt(k, "(- "+ia+" "+ib+")")
+					case token.MUL:
+						return realOfInt(k, "(* "+ia+" "+ib+")")
+					case token.EQL:
+						return symBool("(= " + ia + " " + ib + ")")
+					case token.NEQ:
+						return symBool("(distinct " + ia + " " + ib + ")")
+					case token.LSS:
+						return symBool("(< " + ia + " " + ib + ")")
+					case token.GTR:
+						return symBool("(< " + ib + " " + ia + ")")
+					case token.LEQ:
+						return symBool("(not (< " + ib + " " + ia + "))")
+					case token.GEQ:
+						return symBool("(not (< " + ia + " " + ib + "))")
+					}
+				}
+			}
 			switch op {
 			case token.ADD:
 				return mk(k, "(+ "+a+" "+b+")")
@@ -396,9 +472,9 @@ func symBinop(op token.Token, t types.Type, x, y value) value {
 		case token.LEQ:
 			return symBool("(fp.leq " + a + " " + b + ")")
 		case token.GTR:
-			return symBool("(fp.gt " + a + " " + b + ")")
+			return symBool("(fp.lt " + b + " " + a + ")")
 		case token.GEQ:
-			return symBool("(fp.geq " + a + " " + b + ")")
+			return symBool("(fp.leq " + b + " " + a + ")")
 		}
 	}
 	panic(fmt.Sprintf("symBinop: unsupported %v %s %v", kx, op, ky))
@@ -471,6 +547,9 @@ func symUnop(op token.Token, x *Sym) value {
 			return mk(k, "(bvneg "+x.E+")")
 		case kindIsFloat(k):
 			if RealMode && k == types.Float64 {
+				if x.IntE != "" {
+					return realOfInt(k, "(- "+x.IntE+")")
+				}
 				return mk(k, "(- "+x.E+")")
 			}
 			return mk(k, "(fp.neg "+x.E+")")
@@ -519,20 +598,27 @@ func symConv(dst types.BasicKind, x *Sym) value {
 	case kindIsInt(src) && dst == types.Float64:
 		if RealMode {
 			if isMathInt(src) {
-				return mk(dst, "(to_real "+x.E+")")
+				return realOfInt(dst, x.E)
 			}
 			panic(inconclusive{"real mode: bit-vector to float conversion"})
 		}
 		if isMathInt(src) {
 			panic(inconclusive{"int mode: Int to FloatingPoint conversion (use real mode)"})
 		}
+		var r *Sym
 		if kindSigned(src) {
-			return mk(dst, "((_ to_fp 11 53) RNE "+x.E+")")
+			r = mk(dst, "((_ to_fp 11 53) RNE "+x.E+")")
+		} else {
+			r = mk(dst, "((_ to_fp_unsigned 11 53) RNE "+x.E+")")
 		}
-		return mk(dst, "((_ to_fp_unsigned 11 53) RNE "+x.E+")")
+		r.Finite = true
+		return r
 	case src == types.Float64 && kindIsInt(dst):
 		if RealMode {
 			if isMathInt(dst) {
+				if x.IntE != "" {
+					return mk(dst, x.IntE)
+				}
 				// truncation toward zero
 				return mk(dst, fmt.Sprintf("(ite (>= %s 0.0) (to_int %s) (- (to_int (- %s))))", x.E, x.E, x.E))
 			}
